@@ -282,6 +282,11 @@ def main():
     seed_cases = []
     for k in range(300 if ck.thorough else 60):
         s = rng.randint(0, 99999)
+        if k % 4 == 3:
+            # magnitudes: the seed is an integer of any size for the wrapper (the program reads it with strtoul and its
+            # generator keeps 32 bits: consecutive seeds stay distinct), so values at and around 2**16, 2**31, 2**32, 2**63, 2**64
+            s = rng.choice([0, 2**16 - 1, 2**31 - 1, 2**31, 2**32 - 1, 2**32, 2**63 - 1, 2**64 - 1, 10**30]) - rng.choice([0, 0, 1, 2, 3, 5])
+            s = max(s, 0)
         tmpl = rng.choice(['-r %d', '-n 10 -r %d -x 2', '-E -r%d -R -1', '-R -1 -r  %d', '-d 0 -x 2',
                            # file-valued options whose names contain what looks like -r / -n / -x (with or without digits),
                            # quoted names with spaces, the seed given twice (the last one counts)
@@ -290,6 +295,10 @@ def main():
                            "-r 3 -G 'a b.lt' -r %d", '-G c17-r1m5te5p/grammar.out -d 100', "-G '/tmp/c17-r1m5 te5p/grammar out.txt' -r %d"])
         args = tmpl % s if '%d' in tmpl else tmpl
         nruns = rng.randint(1, 6)
+        if k < 6:
+            # on every run: seeds whose successors cross 2**31, 2**32 and 2**64 (the runs must still get seed, seed+1, ...)
+            args = ['-r %d', '-n 10 -r%d -x 2', "-G 'a b.lt' -r %d"][k % 3] % [2**32 - 2, 2**32 - 1, 2**31 - 2, 2**64 - 2, 2**32, 2**63 - 1][k]
+            nruns = 4
         rs = rng.randint(0, 10**6)
 
         def impl(args=args, nruns=nruns, rs=rs):
